@@ -2,6 +2,9 @@ package checks
 
 import (
 	"bytes"
+	"crypto/sha1"
+	"crypto/x509/pkix"
+	"encoding/asn1"
 	"encoding/base64"
 	"encoding/json"
 	"fmt"
@@ -62,6 +65,7 @@ func c01Chain(f *c01Fixture, keyName string, n int) []*pki.Cert {
 	root := f.chains["root"][0]
 	inter := f.chains["inter"][0]
 	lt := pki.LeafTmpl("c01 leaf " + keyName)
+	lt.Extra = append(lt.Extra, c01SKI(keyName)) // the leaves carry a subject key identifier, as CA-issued certificates usually do
 	switch n {
 	case 1:
 		ch = []*pki.Cert{pki.Issue(lt, pki.K(keyName), nil, nil)}
@@ -72,6 +76,13 @@ func c01Chain(f *c01Fixture, keyName string, n int) []*pki.Cert {
 	}
 	f.chains[k] = ch
 	return ch
+}
+
+// c01SKI is the subject-key-identifier extension of the leaf of keyName: an identifier is a *claim* (any issuer can put any bytes
+// there), never a proof of which key a certificate holds.
+func c01SKI(keyName string) pkix.Extension {
+	id := sha1.Sum([]byte("c01 subject key identifier of " + keyName))
+	return pkix.Extension{Id: asn1.ObjectIdentifier{2, 5, 29, 14}, Value: append([]byte{0x04, 0x14}, id[:]...)}
 }
 
 func c01Build(tier mc.Tier) *c01Fixture {
@@ -282,7 +293,9 @@ func c01Build(tier mc.Tier) *c01Fixture {
 	for _, k := range keys[:2] {
 		other := map[string]string{"p256-e": "p256-f", "rsa2048-b": "rsa2048-c"}[k]
 		lt := pki.LeafTmpl("c01 leaf " + k) // same subject as the real leaf
-		f.twins[k] = []*pki.Cert{pki.Issue(lt, pki.K(other), root, nil), pki.Issue(lt, pki.K(k), root, nil)}
+		lts := lt
+		lts.Extra = append(lts.Extra, c01SKI(k)) // another key under the real leaf's subject *and* subject key identifier
+		f.twins[k] = []*pki.Cert{pki.Issue(lt, pki.K(other), root, nil), pki.Issue(lt, pki.K(k), root, nil), pki.Issue(lts, pki.K(other), root, nil)}
 	}
 	return f
 }
@@ -654,6 +667,7 @@ func c01LeafSubst(f *c01Fixture, e *c01Entry) []c01Mutant {
 	root := e.chain[1].DER
 	out = append(out, c01Mutant{"leaf replaced by a same-subject leaf with another key", mk([][]byte{tw[0].DER, root})})
 	out = append(out, c01Mutant{"leaf replaced by a re-issued certificate of the same key", mk([][]byte{tw[1].DER, root})})
+	out = append(out, c01Mutant{"leaf replaced by a same-subject leaf with another key that claims the same subject key identifier", mk([][]byte{tw[2].DER, root})})
 	out = append(out, c01Mutant{"leaf replaced by the CA certificate", mk([][]byte{root, root})})
 	out = append(out, c01Mutant{"chain replaced by the CA alone", mk([][]byte{root})})
 	return out
